@@ -18,7 +18,7 @@ Record RInv (s : rstate) : Prop := {
           glob s = true \/ exists h, h < nexth s /\ h_pub (hs s h) = Some p /\ reason (hs s h) = true
 }.
 
-Lemma rinv_init f4 f14 f15 : RInv (rinit f4 f14 f15).
+Lemma rinv_init f4 f14 f15 f16 : RInv (rinit f4 f14 f15 f16).
 Proof. constructor; simpl; intros; discriminate. Qed.
 
 (** handler records, publishers untouched; the global reasons only grow *)
@@ -69,10 +69,23 @@ Proof.
   all: destruct R as [A B C]; unfold okupd, reason; simpl; repeat split; auto; try discriminate; try apply B.
 Qed.
 
+Lemma rinv_close_unstarted s : RInv s -> RInv (close_unstarted s).
+Proof.
+  intros [A B C]. unfold close_unstarted. destruct (fix16 s); [|constructor; assumption].
+  constructor; simpl.
+  - intros h X Y. destruct (removable (hs s h)); simpl in *; apply A; auto.
+  - intros h X. destruct (removable (hs s h)); simpl in *; apply B; auto.
+  - intros p X. destruct (C p X) as [|(h & H1 & H2 & H3)]; auto. right. exists h.
+    destruct (removable (hs s h)); simpl; auto.
+Qed.
+
 Lemma cl_rframe s me p c s1 p' : RInv s -> cl_step s me p c = Some (s1, p') -> RInv s1.
 Proof.
-  intros R X. unfold cl_step in X. destruct p, c; try discriminate X; destr X; injection X as <- _; try exact R.
-  all: eapply rinv_mono; [exact R|reflexivity|reflexivity|reflexivity|gmono].
+  intros R X. pose proof (rinv_close_unstarted s R) as R'.
+  unfold cl_step in X. destruct p, c; try discriminate X; destr X; injection X as <- _; try exact R.
+  all: first [eapply rinv_mono; [exact R|reflexivity|reflexivity|reflexivity|gmono]
+             |eapply rinv_mono; [exact R'|reflexivity|reflexivity|reflexivity|]].
+  unfold glob, close_unstarted; destruct (fix16 s); simpl; intros G; rewrite ?orb_true_r; auto.
 Qed.
 
 Lemma hctx_reason s h : RInv s -> hctx_done s h = true -> reason (hs s h) = true \/ glob s = true.
@@ -197,8 +210,8 @@ Qed.
     not cancelled, router not closing) - is still in its receive loop with its subscription
     open and its own context live, takes its next message, and its publisher is open unless a
     handler SHARING that publisher was stopped / ended. *)
-Theorem stop_is_local f4 f14 f15 ls :
-  let s := run (rinit f4 f14 f15) ls in
+Theorem stop_is_local f4 f14 f15 f16 ls :
+  let s := run (rinit f4 f14 f15 f16) ls in
   forall h2, h_loop (hs s h2) <> LNone -> reason (hs s h2) = false -> glob s = false ->
     h_loop (hs s h2) = LRange /\ h_subOpen (hs s h2) = true /\ h_cancel (hs s h2) = false
     /\ step s (LRecv h2) <> None
@@ -207,7 +220,7 @@ Theorem stop_is_local f4 f14 f15 ls :
           pubClosed s p = false).
 Proof.
   intros s h2 L NR NG.
-  destruct (run_rinv ls (rinit f4 f14 f15) (sinv_init _ _ _) (rinv_init _ _ _)) as [I R]. fold s in I, R.
+  destruct (run_rinv ls (rinit f4 f14 f15 f16) (sinv_init _ _ _ _) (rinv_init _ _ _ _)) as [I R]. fold s in I, R.
   destruct (i_hrec _ I h2).
   destruct (r_loop L) as (St & _). destruct (r_subs1 St) as [Su _].
   assert (SO : h_subOpen (hs s h2) = true).
